@@ -264,10 +264,13 @@ def sanitize_except_aromatization(mol):
                      SANITIZE_CLEANUP)
     Chem.SanitizeMol(mol, sanitizeOps=Chem.rdmolops.SanitizeFlags.
                      SANITIZE_CLEANUPCHIRALITY)
-    Chem.SanitizeMol(mol, sanitizeOps=Chem.rdmolops.SanitizeFlags.
-                     SANITIZE_FINDRADICALS)
+    # Kekulize before looking for radicals (the order RDKit itself uses): on
+    # the aromatic form a bracketed aromatic sulfur ('c1cc[s]c1') is given a
+    # radical electron it does not have
     Chem.SanitizeMol(mol, sanitizeOps=Chem.rdmolops.SanitizeFlags.
                      SANITIZE_KEKULIZE)
+    Chem.SanitizeMol(mol, sanitizeOps=Chem.rdmolops.SanitizeFlags.
+                     SANITIZE_FINDRADICALS)
     Chem.SanitizeMol(mol, sanitizeOps=Chem.rdmolops.SanitizeFlags.
                      SANITIZE_PROPERTIES)
     Chem.SanitizeMol(mol, sanitizeOps=Chem.rdmolops.SanitizeFlags.
